@@ -379,7 +379,11 @@ func NewReader(r io.Reader, b int) (*Reader, error) {
 func (r *Reader) Read() (f feat.Feature, err error) {
 	line, err := r.r.ReadBytes('\n')
 	if err != nil {
-		return
+		if err != io.EOF || len(line) == 0 {
+			return
+		}
+		// The final line is not terminated by a newline: parse it;
+		// the next call reports io.EOF.
 	}
 	r.line++
 	line = bytes.TrimSpace(line)
